@@ -35,6 +35,8 @@ pub(crate) fn validate_integer(value: Value) -> Result<isize, Error> {
 }
 
 pub(crate) fn hash_number(num: f64) -> u64 {
+    // 0.0 == -0.0, so both must hash alike.
+    let num = if num == 0.0 { 0.0 } else { num };
     let mut hash = u64::from_ne_bytes(num.to_ne_bytes()) as u128;
     hash = (!hash).wrapping_add(hash.wrapping_shl(18));
     hash = hash ^ hash.wrapping_shr(31);
